@@ -35,6 +35,9 @@ func init() {
 
 type UserSpec struct {
 	Name, Pass string
+
+	// ID: the user ID the application chooses (Server.LoadUser); "" lets the server make one up (Server.AddUser).
+	ID string
 }
 
 type Options struct {
@@ -130,7 +133,7 @@ func Start(opts Options, users ...UserSpec) (*Bed, error) {
 	for _, u := range users {
 		conn := vconn.New([]string{u.Name}, u.Pass)
 		conn.Echo = opts.Echo
-		b.Users = append(b.Users, &User{Name: u.Name, Pass: u.Pass, Conn: conn})
+		b.Users = append(b.Users, &User{Name: u.Name, Pass: u.Pass, ID: u.ID, Conn: conn})
 	}
 
 	if err := b.boot(true); err != nil {
@@ -196,7 +199,11 @@ func (b *Bed) boot(first bool) error {
 	b.cancel = cancel
 
 	for i, u := range b.Users {
-		if first {
+		if first && u.ID != "" {
+			if _, err := srv.LoadUser(ctx, u.Conn, u.ID, []byte(Passphrase)); err != nil {
+				return fmt.Errorf("LoadUser(%q): %w", u.ID, err)
+			}
+		} else if first {
 			id, err := srv.AddUser(ctx, u.Conn, []byte(Passphrase))
 			if err != nil {
 				return fmt.Errorf("AddUser: %w", err)
